@@ -313,7 +313,11 @@ impl<'de> serde::Deserializer<'de> for &mut ValueDeserializer<'de> {
         V: serde::de::Visitor<'de>,
     {
         if let Some(scalar) = self.input.as_scalar() {
-            if scalar.to_integer().is_some() {
+            if scalar.type_name() == "string" {
+                // `to_integer`/`to_float` also read strings: a string that spells a number is
+                // still a string
+                self.deserialize_str(visitor)
+            } else if scalar.to_integer().is_some() {
                 self.deserialize_i64(visitor)
             } else if scalar.to_float().is_some() {
                 self.deserialize_f64(visitor)
